@@ -9,6 +9,7 @@
        write_volatile::<uN> of an aligned location is one single-copy-atomic CPU access is the
        trusted part of the claim - see manifest.d/C06.json level_note.) *)
 From VM Require Import Prelude.MachInt Prelude.Outcome Prelude.Tok.
+From VM Require Import Impl.CopyPlan.   (* only for the type [access] of primitive accesses *)
 
 (* ------------------------------------------------------------------ (a) checkers *)
 (* entry-point token: bit 0 = direction (0: local -> guest "write", 1: guest -> local "read"),
@@ -86,5 +87,30 @@ Inductive interleave : list mev -> list mev -> list mev -> Prop :=
 | il_l e a b l : interleave a b l -> interleave (e :: a) b (e :: l)
 | il_r e a b l : interleave a b l -> interleave a (e :: b) (e :: l).
 
+(* a non-null pointer to an allocation of at least n bytes (what the callers of copy_slice
+   guarantee: `src`/`dst` "point to a contiguously allocated memory region of at least length total") *)
+Definition valid_ptr (a n : N) : Prop := 0 < a < W64 /\ a + n <= W64.
+
 (* [a, a+n) and [b, b+n) do not intersect *)
 Definition disjoint (a b n : N) : Prop := a + n <= b \/ b + n <= a.
+
+(* ------------------------------------------------------------------ (c) predicates on access plans *)
+Definition is_wordP (w : N) : Prop := w = 1 \/ w = 2 \/ w = 4 \/ w = 8.
+
+(* a primitive access is a copy_single of width 1/2/4/8 whose two pointers are aligned to that
+   width (so that read_volatile::<uW> / write_volatile::<uW> are defined behaviour) *)
+Definition acc_ok (a : access) : Prop :=
+  match a with
+  | Acc w s d => is_wordP w /\ s mod w = 0 /\ d mod w = 0
+  | Bulk _ _ _ => False
+  end.
+Definition acc_width (a : access) : N := match a with Acc w _ _ => w | Bulk _ _ n => n end.
+(* the accesses are issued at ascending, contiguous, non-overlapping positions starting at (s, d),
+   source and destination advancing together *)
+Fixpoint acc_tiles (s d : N) (p : list access) {struct p} : Prop :=
+  match p with
+  | [] => True
+  | Acc w s' d' :: r => s' = s /\ d' = d /\ acc_tiles (s + w) (d + w) r
+  | Bulk _ _ _ :: _ => False
+  end.
+Fixpoint acc_sum (p : list access) : N := match p with [] => 0 | a :: r => acc_width a + acc_sum r end.
